@@ -232,6 +232,44 @@ pub fn run(tier: Tier, shard: Shard, stats: &mut Stats) {
             }
         }
     }
+    // a terminal with fewer rows than the bar line wraps to: the line is painted whole or not at all
+    for (tw, th, n) in [(20u16, 1u16, 40usize), (10, 2, 35), (7, 1, 8), (5, 3, 20)] {
+        case += 1;
+        if !shard.owns(case) {
+            continue;
+        }
+        let mut catcher = LineCatcher::new(tw);
+        catcher.h = th;
+        for c in [1usize, 2] {
+            let set = charset(3, c);
+            let set_s: String = set.iter().collect();
+            let tpl = format!("{{bar:{n}}}");
+            stats.evaluations += 1;
+            stats.transitions += 1;
+            let hist = vec![tpl.clone(), format!("terminal {tw}x{th}"), format!("progress_chars {:?}", set_s), "pos 3 len 7".to_string()];
+            match catch(|| {
+                let pb = bar_on(&catcher, Some(7), ProgressStyle::with_template(&tpl).unwrap().progress_chars(&set_s)).with_position(3);
+                catcher.take();
+                pb.force_draw();
+                let l = catcher.take();
+                pb.abandon();
+                l
+            }) {
+                Err(p) => stats.violation(Violation { class: format!("panic: {}", panic_class(&p)), config: "short terminal".into(), history: hist, detail: p }),
+                Ok(payloads) => {
+                    let cells: String = payloads.iter().flat_map(|s| s.chars()).filter(|ch| set.contains(ch)).collect();
+                    if cells.is_empty() {
+                        stats.state_outcome(hash_of(&("short", tw, th, n, c, 0)), false);
+                    } else {
+                        match judge(&cells, &set, n / c * c, c, 3, 7) {
+                            Ok((filled, partial)) => stats.state_outcome(hash_of(&("short", tw, th, n, c, filled, partial)), true),
+                            Err((class, detail)) => stats.violation(Violation { class: format!("short terminal: {class}"), config: "short terminal".into(), history: hist, detail }),
+                        }
+                    }
+                }
+            }
+        }
+    }
     // very wide terminals, and a {bar:N} line after the {wide_bar} line (each line has its own elements only)
     for tw in [100u16, 512, 513, 1000, 4000, u16::MAX] {
         case += 1;
